@@ -32,17 +32,20 @@ def build_vec(eng, name, kinds, spell, D):
             if not eng.concrete:
                 normal_range(eng, v, 2.0 ** -20, 2.0 ** 20)
             vals.append(v)
+        elif isinstance(k, str) and k.startswith("int:"):
+            vals.append(int(k[4:]))          # integer-typed spelling (python int / int64 array)
         else:
             vals.append(SPECIAL[k])
     allc = all(not isinstance(v, SV) for v in vals)
+    alli = all(isinstance(v, int) for v in vals)
     if spell == "row":      # (1, D)
         a = np.empty((1, D), dtype=object)
         a[0, :] = vals
-        arr = a.astype(float) if allc else a.view(SymArray)
+        arr = a.astype(int) if alli else (a.astype(float) if allc else a.view(SymArray))
     elif spell == "flat":   # (D,)
         a = np.empty((D,), dtype=object)
         a[:] = vals
-        arr = a.astype(float) if allc else a.view(SymArray)
+        arr = a.astype(int) if alli else (a.astype(float) if allc else a.view(SymArray))
     elif spell == "list":
         arr = list(vals)
     elif spell == "tuple":
